@@ -11,10 +11,16 @@ open P2sh P2sh.Core
 
 /-! ## code sizes -/
 
+theorem bytes_caps : ∀ caps : List Cap, bytes (caps.map capInstr) = capsBytes caps
+  | [] => by simp [bytes, capsBytes]
+  | c :: rest => by simp [bytes, capsBytes, bytes_caps rest]
+
 mutual
 theorem bytes_compileE : ∀ (e : FExpr) (pos k : Nat), bytes (compileE pos k e) = sizeE e
-  | .lit .., _, _ | .tru _, _, _ | .fls _, _, _ | .null _, _, _ | .gget .., _, _ | .lget .., _, _ | .curr _, _, _ => by
+  | .lit .., _, _ | .tru _, _, _ | .fls _, _, _ | .null _, _, _ | .gget .., _, _ | .lget .., _, _ | .curr _, _, _ | .fget .., _, _ => by
     simp [compileE, sizeE, bytes, Instr.size]
+  | .fset _ _ a, pos, k => by simp [compileE, sizeE, bytes_append, bytes, Instr.size, bytes_compileE a]
+  | .mkclos _ _ _ _ _ _ caps, pos, k => by simp [compileE, sizeE, bytes_append, bytes, Instr.size, bytes_caps]
   | .un _ op a, pos, k => by cases op <;> simp [compileE, sizeE, bytes_append, bytes, Instr.size, unInstr, bytes_compileE a]
   | .gset _ _ a, pos, k => by simp [compileE, sizeE, bytes_append, bytes, Instr.size, bytes_compileE a]
   | .lset _ _ a, pos, k => by simp [compileE, sizeE, bytes_append, bytes, Instr.size, bytes_compileE a]
@@ -127,10 +133,10 @@ end
 
 /-- the state after a `return` of `v`: the caller's frame, the value in place of the callee
 slot (`sp = bp - 1`, push) -/
-def retSt (X : Ctxt) (v : Val) (g : List Val) : FSt :=
+def retSt (X : Ctxt) (v : Val) (g : List Val) (h : List (List Val)) : FSt :=
   match X.callers with
-  | c :: cs => ⟨c, v :: X.base.tail, g, cs⟩
-  | [] => X.at 0 [] g
+  | c :: cs => ⟨c, v :: X.base.tail, g, h, cs⟩
+  | [] => X.at 0 [] g h
 
 /-- after a statement that ends in flow `f`: at the statement's end, or at the end / the
 beginning of the loop addressed, with the operands `ops` it started with on the slots `σ.l`;
@@ -139,7 +145,7 @@ def exitS (X : Ctxt) (ctx : List LoopCtx) (endPos : Nat) (ops : List Val) (σ : 
   | .normal => X.st endPos ops σ
   | .brk l => X.st (breakTarget ctx l) ops σ
   | .cont l => X.st (contTarget ctx l) ops σ
-  | .ret v => retSt X v σ.g
+  | .ret v => retSt X v σ.g σ.h
 
 /-- after a block in value position: its value `bv` is pushed when it ends normally -/
 def exitV (X : Ctxt) (ctx : List LoopCtx) (endPos : Nat) (ops : List Val) (σ : Sto) (f : FFlow) (bv : Val) : FSt :=
@@ -150,7 +156,7 @@ def exitV (X : Ctxt) (ctx : List LoopCtx) (endPos : Nat) (ops : List Val) (σ : 
 /-- after a function body: ending normally it has returned its value `bv` -/
 def exitT (X : Ctxt) (ctx : List LoopCtx) (ops : List Val) (σ : Sto) (f : FFlow) (bv : Val) : FSt :=
   match f with
-  | .normal => retSt X bv σ.g
+  | .normal => retSt X bv σ.g σ.h
   | f => exitS X ctx 0 ops σ f
 
 theorem exitS_ne_normal {X ctx e1 e2 ops σ f} (h : f ≠ FFlow.normal) : exitS X ctx e1 ops σ f = exitS X ctx e2 ops σ f := by
@@ -206,8 +212,8 @@ theorem FSteps.toPc {K F s} {X : Ctxt} {a b : Nat} {ops : List Val} {σ : Sto}
 section
 variable (Φ : FnDef → Option FDecl) (K : List Val) (F : FnDef → Option (List Instr))
 
-/-- the evaluation context `cx` (the function being evaluated) is the activation `X` -/
-def Agree (cx : Option FnDef) (X : Ctxt) : Prop := ∀ fd, cx = some fd → X.fd = fd ∧ X.callers ≠ []
+/-- the evaluation context `cx` (the function being evaluated and its closure object) is the activation `X` -/
+def Agree (cx : Option (FnDef × Nat)) (X : Ctxt) : Prop := ∀ fd id, cx = some (fd, id) → X.fd = fd ∧ X.cid = id ∧ X.callers ≠ []
 
 /-- every function constant `fd` that stands for a declaration `d` has as its code the
 compiled body of `d`, whose constants are in the pool where that code expects them; its
@@ -217,66 +223,66 @@ def Linked : Prop :=
     ∃ kd, F fd = some (compileFn kd d) ∧ poolAt K kd (constsP d.body) ∧ fd.numParams = d.np ∧ fd.numLocals = d.nl
 
 def SoundE (fuel : Nat) : Prop :=
-  ∀ (e : FExpr) (X : Ctxt) (pos k : Nat) (ops : List Val) (cx : Option FnDef) (σ σ' : Sto) (v : Val),
+  ∀ (e : FExpr) (X : Ctxt) (pos k : Nat) (ops : List Val) (cx : Option (FnDef × Nat)) (σ σ' : Sto) (v : Val),
     codeAt X.code pos (compileE pos k e) → poolAt K k (constsE e) → Agree cx X → evalE Φ fuel cx σ e = some (v, σ') →
     FSteps K F (X.st pos ops σ) (X.st (pos + bytes (compileE pos k e)) (v :: ops) σ')
 
 def SoundArms (fuel : Nat) : Prop :=
-  ∀ (arms : FArms) (X : Ctxt) (pos k : Nat) (ops : List Val) (cx : Option FnDef) (σ σ' : Sto) (v r : Val),
+  ∀ (arms : FArms) (X : Ctxt) (pos k : Nat) (ops : List Val) (cx : Option (FnDef × Nat)) (σ σ' : Sto) (v r : Val),
     codeAt X.code pos (compileArms pos k arms) → poolAt K k (constsArms arms) → Agree cx X →
     evalArms Φ fuel cx σ v arms = some (r, σ') →
     FSteps K F (X.st pos (v :: ops) σ) (X.st (pos + bytes (compileArms pos k arms)) (r :: ops) σ')
 
 /-- the arguments are pushed left to right: the last one is on top -/
 def SoundArgs (fuel : Nat) : Prop :=
-  ∀ (args : FArgs) (X : Ctxt) (pos k : Nat) (ops : List Val) (cx : Option FnDef) (σ σ' : Sto) (vs : List Val),
+  ∀ (args : FArgs) (X : Ctxt) (pos k : Nat) (ops : List Val) (cx : Option (FnDef × Nat)) (σ σ' : Sto) (vs : List Val),
     codeAt X.code pos (compileArgs pos k args) → poolAt K k (constsArgs args) → Agree cx X →
     evalArgs Φ fuel cx σ args = some (vs, σ') →
     FSteps K F (X.st pos ops σ) (X.st (pos + bytes (compileArgs pos k args)) (vs.reverse ++ ops) σ') ∧ vs.length = args.length
 
 def SoundS (fuel : Nat) : Prop :=
-  ∀ (s : FStmt) (X : Ctxt) (pos k : Nat) (ctx : List LoopCtx) (ops : List Val) (cx : Option FnDef) (σ σ' : Sto) (f : FFlow) (bv : Val),
+  ∀ (s : FStmt) (X : Ctxt) (pos k : Nat) (ctx : List LoopCtx) (ops : List Val) (cx : Option (FnDef × Nat)) (σ σ' : Sto) (f : FFlow) (bv : Val),
     codeAt X.code pos (compileS pos k ctx s) → poolAt K k (constsS s) → Agree cx X →
     evalS Φ fuel cx σ s = some (σ', f, bv) →
     FSteps K F (X.st pos ops σ) (exitS X ctx (pos + bytes (compileS pos k ctx s)) ops σ' f)
 
 /-- a statement in value position (the last statement of a branch of an `if`) -/
 def SoundSV (fuel : Nat) : Prop :=
-  ∀ (s : FStmt) (X : Ctxt) (pos k : Nat) (ctx : List LoopCtx) (ops : List Val) (cx : Option FnDef) (σ σ' : Sto) (f : FFlow) (bv : Val),
+  ∀ (s : FStmt) (X : Ctxt) (pos k : Nat) (ctx : List LoopCtx) (ops : List Val) (cx : Option (FnDef × Nat)) (σ σ' : Sto) (f : FFlow) (bv : Val),
     codeAt X.code pos (valueOf s.isExprStmt (compileS pos k ctx s)) → poolAt K k (constsS s) → Agree cx X →
     evalS Φ fuel cx σ s = some (σ', f, bv) →
     FSteps K F (X.st pos ops σ) (exitV X ctx (pos + bytes (valueOf s.isExprStmt (compileS pos k ctx s))) ops σ' f bv)
 
 /-- a statement in return position (the last statement of a function body) -/
 def SoundST (fuel : Nat) : Prop :=
-  ∀ (s : FStmt) (X : Ctxt) (pos k : Nat) (ctx : List LoopCtx) (ops : List Val) (fd : FnDef) (σ σ' : Sto) (f : FFlow) (bv : Val),
-    codeAt X.code pos (tailOf s (compileS pos k ctx s)) → poolAt K k (constsS s) → Agree (some fd) X →
-    evalS Φ fuel (some fd) σ s = some (σ', f, bv) →
+  ∀ (s : FStmt) (X : Ctxt) (pos k : Nat) (ctx : List LoopCtx) (ops : List Val) (fd : FnDef) (id : Nat) (σ σ' : Sto) (f : FFlow) (bv : Val),
+    codeAt X.code pos (tailOf s (compileS pos k ctx s)) → poolAt K k (constsS s) → Agree (some (fd, id)) X →
+    evalS Φ fuel (some (fd, id)) σ s = some (σ', f, bv) →
     FSteps K F (X.st pos ops σ) (exitT X ctx ops σ' f bv)
 
 def SoundP (fuel : Nat) : Prop :=
-  ∀ (ss : List FStmt) (X : Ctxt) (pos k : Nat) (ctx : List LoopCtx) (ops : List Val) (cx : Option FnDef) (σ σ' : Sto) (f : FFlow) (bv : Val),
+  ∀ (ss : List FStmt) (X : Ctxt) (pos k : Nat) (ctx : List LoopCtx) (ops : List Val) (cx : Option (FnDef × Nat)) (σ σ' : Sto) (f : FFlow) (bv : Val),
     codeAt X.code pos (compileP pos k ctx ss) → poolAt K k (constsP ss) → Agree cx X →
     evalP Φ fuel cx σ ss = some (σ', f, bv) →
     FSteps K F (X.st pos ops σ) (exitS X ctx (pos + bytes (compileP pos k ctx ss)) ops σ' f)
 
 /-- a block in value position: ending normally it has pushed its value -/
 def SoundV (fuel : Nat) : Prop :=
-  ∀ (ss : List FStmt) (X : Ctxt) (pos k : Nat) (ctx : List LoopCtx) (ops : List Val) (cx : Option FnDef) (σ σ' : Sto) (f : FFlow) (bv : Val),
+  ∀ (ss : List FStmt) (X : Ctxt) (pos k : Nat) (ctx : List LoopCtx) (ops : List Val) (cx : Option (FnDef × Nat)) (σ σ' : Sto) (f : FFlow) (bv : Val),
     codeAt X.code pos (branchV pos k ctx ss) → poolAt K k (constsP ss) → Agree cx X →
     evalP Φ fuel cx σ ss = some (σ', f, bv) →
     FSteps K F (X.st pos ops σ) (exitV X ctx (pos + bytes (branchV pos k ctx ss)) ops σ' f bv)
 
 /-- a function body: ending normally it has returned its value -/
 def SoundT (fuel : Nat) : Prop :=
-  ∀ (ss : List FStmt) (X : Ctxt) (pos k : Nat) (ctx : List LoopCtx) (ops : List Val) (fd : FnDef) (σ σ' : Sto) (f : FFlow) (bv : Val),
-    codeAt X.code pos (tailP pos k ctx ss) → poolAt K k (constsP ss) → Agree (some fd) X →
-    evalP Φ fuel (some fd) σ ss = some (σ', f, bv) →
+  ∀ (ss : List FStmt) (X : Ctxt) (pos k : Nat) (ctx : List LoopCtx) (ops : List Val) (fd : FnDef) (id : Nat) (σ σ' : Sto) (f : FFlow) (bv : Val),
+    codeAt X.code pos (tailP pos k ctx ss) → poolAt K k (constsP ss) → Agree (some (fd, id)) X →
+    evalP Φ fuel (some (fd, id)) σ ss = some (σ', f, bv) →
     FSteps K F (X.st pos ops σ) (exitT X ctx ops σ' f bv)
 
 /-- an `if` with statement blocks as an expression -/
 def SoundIfV (fuel : Nat) : Prop :=
-  ∀ (ls l : Nat) (c : FExpr) (thn els : List FStmt) (X : Ctxt) (pos k : Nat) (ctx : List LoopCtx) (ops : List Val) (cx : Option FnDef)
+  ∀ (ls l : Nat) (c : FExpr) (thn els : List FStmt) (X : Ctxt) (pos k : Nat) (ctx : List LoopCtx) (ops : List Val) (cx : Option (FnDef × Nat))
     (σ σ' : Sto) (f : FFlow) (bv : Val),
     codeAt X.code pos (ifV pos k ctx c thn els) → poolAt K k (constsE c ++ constsP thn ++ constsP els) → Agree cx X →
     evalS Φ fuel cx σ (.ifS ls l c thn els) = some (σ', f, bv) →
@@ -324,16 +330,16 @@ theorem fs_jifnp {pc t v ops σ} (h : codeAt X.code pc [Instr.jifnp t]) :
 theorem fs_getGlobal {pc i ops σ} (h : codeAt X.code pc [Instr.getGlobal i]) :
     fstep K F (X.st pc ops σ) = some (X.st (pc + 3) (σ.g.getD i .null :: ops) σ) := fstep_core (step_getGlobal h)
 theorem fs_setGlobal {pc i v ops} {σ : Sto} (h : codeAt X.code pc [Instr.setGlobal i]) (hi : i < σ.g.length) :
-    fstep K F (X.st pc (v :: ops) σ) = some (X.st (pc + 3) (v :: ops) ⟨σ.l, σ.g.set i v⟩) := fstep_core (step_setGlobal h hi)
+    fstep K F (X.st pc (v :: ops) σ) = some (X.st (pc + 3) (v :: ops) ⟨σ.l, σ.g.set i v, σ.h⟩) := fstep_core (step_setGlobal h hi)
 theorem fs_defGlobal {pc i v ops} {σ : Sto} (h : codeAt X.code pc [Instr.defGlobal i]) (hi : i < σ.g.length) :
-    fstep K F (X.st pc (v :: ops) σ) = some (X.st (pc + 3) ops ⟨σ.l, σ.g.set i v⟩) := fstep_core (step_defGlobal h hi)
+    fstep K F (X.st pc (v :: ops) σ) = some (X.st (pc + 3) ops ⟨σ.l, σ.g.set i v, σ.h⟩) := fstep_core (step_defGlobal h hi)
 
 /-- the tests of the patterns of one arm, with the scrutinee `v` on top of the operands (the
 core machine's `pats_correct`, inside an activation) -/
 theorem fs_pats (ps : List CPat) (pos k t : Nat) (v : Val) (ops : List Val) (σ : Sto) (b : Bool)
     (h : codeAt X.code pos (compilePats pos k t ps)) (hp : poolAt K k (patsConsts ps)) (ht : patsTest v ps = some b) :
     FSteps K F (X.st pos (v :: ops) σ) (X.st (if b then t else pos + patsBytes ps) (v :: ops) σ) :=
-  FSteps.ofCore (pats_correct ps X.code K pos k t v (ops ++ (σ.l.reverse ++ X.base)) σ.g b h hp ht)
+  FSteps.ofCore (hp := σ.h) (pats_correct ps X.code K pos k t v (ops ++ (σ.l.reverse ++ X.base)) σ.g b h hp ht)
 
 end
 
